@@ -612,6 +612,12 @@ func runC15(r *Run) {
 	}
 
 	c15LateRegistration(r)
+	// types whose registered schema is itself a union, in a sequence of struct types (the
+	// types belong to this scenario alone, like those of the late registration)
+	r.Count("registered-union-history")
+	if msg := c20UnionHistoryCheck(); msg != "" {
+		r.Fail(-1, "registered-union-history", msg, map[string]any{"scenario": "RegisterSchema(c20Code, [string,null]); RegisterSchema(c20Qty, [long,string,null]); SchemaForType(plain); twice: SchemaForType(opt), SchemaForType(elems), SchemaForType(plain)"})
+	}
 
 	// self-referential and mutually recursive types: an error, in a child
 	// process in case the stack overflow comes back
@@ -995,6 +1001,8 @@ func c20Worker(arg json.RawMessage) (any, error) {
 			out = append(out, []c20ContRes{{Container: "anon-check", SchemaErr: c20RelibCheck()}})
 		case "enumreg":
 			out = append(out, []c20ContRes{{Container: "anon-check", SchemaErr: c20EnumCheck()}})
+		case "unionhist":
+			out = append(out, []c20ContRes{{Container: "anon-check", SchemaErr: c20UnionHistoryCheck()}})
 		default:
 			return nil, fmt.Errorf("unknown step %q", st.Op)
 		}
@@ -1247,7 +1255,7 @@ func (p *c20Parent) scenario(label string, steps []c20Step, noOracle bool) {
 		}
 		conts := results[ri]
 		ri++
-		if st.Op == "anon" || st.Op == "relib" || st.Op == "enumreg" {
+		if st.Op == "anon" || st.Op == "relib" || st.Op == "enumreg" || st.Op == "unionhist" {
 			r.Count("anon-registration")
 			if len(conts) == 1 && conts[0].SchemaErr != "" {
 				p.failOnce(-1, "registration-of-unnamed-type", conts[0].SchemaErr, map[string]any{"scenario": label})
@@ -1631,6 +1639,10 @@ func runC20(r *Run) {
 	// a registration is the only way to use a schema kind the library has no codec of its own for
 	// (enum): the registered builder governs the type in every position, whatever the schema says
 	p.scenario("registered-enum-schema", []c20Step{{Op: "enumreg"}}, true)
+	// a registered schema that is itself a union (null second, and three branches), used plain,
+	// behind omitempty, behind a pointer and as an element, in several struct types one after the
+	// other: what generation emits for one struct does not depend on what was generated before
+	p.scenario("registered-union-history", []c20Step{{Op: "unionhist"}}, true)
 	// registration only after a first codec was built without any
 	p.scenario("first-after-build", []c20Step{
 		{Op: "run", Containers: late, Seed: seed, N: nv, Hold: true},
@@ -1938,6 +1950,87 @@ func c20RelibCheck() string {
 	}
 	if used != before {
 		return "after RegisterCodecs was called again the superseded application builder is still consulted"
+	}
+	return ""
+}
+
+// c20UnionHistoryCheck (child): types whose registered schema is already a union, generated for
+// in a sequence of struct types.  The registered schema is what generation emits in every
+// position (omitempty and pointers add no second null and do not reorder the branches), and
+// generating for one struct type leaves the results for every other - earlier and later - as
+// they are: generation is a function of the type and the registrations, not of the history.
+type c20Code string
+type c20Qty int64
+
+func c20UnionHistoryCheck() string {
+	u2 := avro.Schema{Type: "union", Union: []avro.Schema{{Type: "string"}, {Type: "null"}}}
+	u3 := avro.Schema{Type: "union", Union: []avro.Schema{{Type: "long"}, {Type: "string"}, {Type: "null"}}}
+	want2, want3 := schemaJSON(u2), schemaJSON(u3)
+	avro.RegisterSchema(reflect.TypeOf(c20Code("")), u2)
+	avro.RegisterSchema(reflect.TypeOf(c20Qty(0)), u3)
+	type plain struct {
+		Code c20Code `json:"code"`
+		Qty  c20Qty  `json:"qty"`
+		N    int64   `json:"n"`
+	}
+	type opt struct {
+		Code c20Code   `json:"code,omitempty"`
+		Qty  c20Qty    `json:"qty,omitempty"`
+		P    *c20Code  `json:"p"`
+		PO   *c20Qty   `json:"po,omitempty"`
+		L    []c20Code `json:"l,omitempty"`
+	}
+	type elems struct {
+		L []c20Code         `json:"l"`
+		M map[string]c20Qty `json:"m"`
+		P *c20Code          `json:"p,omitempty"`
+	}
+	field := func(s avro.Schema, name string) string {
+		if s.Object == nil {
+			return "<no record>"
+		}
+		for _, f := range s.Object.Fields {
+			if f.Name == name {
+				return schemaJSON(f.Type)
+			}
+		}
+		return "<no field " + name + ">"
+	}
+	s1, err := avro.SchemaForType(plain{})
+	if err != nil {
+		return "SchemaForType(plain) with registered union schemas: " + err.Error()
+	}
+	first := schemaJSON(s1)
+	if field(s1, "code") != want2 || field(s1, "qty") != want3 {
+		return fmt.Sprintf("plain fields of types registered with %s and %s get %s and %s", want2, want3, field(s1, "code"), field(s1, "qty"))
+	}
+	for round := 0; round < 2; round++ {
+		s2, err := avro.SchemaForType(opt{})
+		if err != nil {
+			return "SchemaForType(opt) with registered union schemas: " + err.Error()
+		}
+		for _, fn := range []struct{ name, want string }{{"code", want2}, {"qty", want3}, {"p", want2}, {"po", want3}} {
+			if got := field(s2, fn.name); got != fn.want {
+				return fmt.Sprintf("field %q (omitempty / pointer over a type whose registered schema is the union %s) gets %s", fn.name, fn.want, got)
+			}
+		}
+		s3, err := avro.SchemaForType(elems{})
+		if err != nil {
+			return "SchemaForType(elems) with registered union schemas: " + err.Error()
+		}
+		if got := field(s3, "p"); got != want2 {
+			return fmt.Sprintf("an omitempty pointer to a type registered with %s gets %s", want2, got)
+		}
+		again, err := avro.SchemaForType(plain{})
+		if err != nil {
+			return "SchemaForType(plain), second time: " + err.Error()
+		}
+		if got := schemaJSON(again); got != first {
+			return fmt.Sprintf("SchemaForType(plain) gave %s, and after generating schemas for two other struct types gives %s", first, got)
+		}
+		if got := schemaJSON(s1); got != first {
+			return fmt.Sprintf("the schema value returned by SchemaForType(plain) read %s when it was returned and reads %s after schemas for two other struct types were generated", first, got)
+		}
 	}
 	return ""
 }
